@@ -87,7 +87,7 @@ def typestate_run(ctx):
 
     def check_exit(e, H, report):
         if H["st"] == "Completed" and H["g"] != "completed" and H["ar"] != "yes":
-            report("Completed without delivery", "entry point %s can return with state Completed although no writer received "
+            report("Completed without delivery via %s (writer %s)" % (e.split("::")[-1], H["g"]), "entry point %s can return with state Completed although no writer received "
                                                  "complete() (writer session: %s) and the builder did not answer ObjectAlreadyReceived: the object "
                                                  "is registered as received but was never delivered" % (e.split("::")[-1], H["g"]), loc(prog.funcs[e].sp))
 
